@@ -28,46 +28,82 @@ def key_of(op):
     return None
 
 
-def gen_random(rng, n, maxlen, heavy_reserve=False):
+def gen_random(rng, n, maxlen, heavy_reserve=False, keys=None, sizes=None):
+    """PRNG op sequences.  A light shadow of the state (keys inserted so far, handle ids handed out) biases
+    choices towards operations that are VALID (existing keys, live handles), as most real sequences are."""
+    keys = keys or KEYS
+    sizes = sizes or SIZES
     out = []
     for _ in range(n):
         cap = rng.weighted([(25, 6), (40, 3), (1, 1), (0, 1)])
         init = []
+        present = []
         if rng.chance(1, 3):
             used = set()
             for _ in range(rng.range(1, 4)):
-                k = rng.choice(KEYS + [b'.sccachetmpOLD', b'd/.sccachetmpX'])
+                k = rng.choice(keys + [b'.sccachetmpOLD', b'd/.sccachetmpX'])
                 if k in used:
                     continue
                 used.add(k)
-                init.append([k, rng.choice(SIZES), 1 + len(init)])
+                init.append([k, rng.choice(sizes), 1 + len(init)])
+                if k in keys:
+                    present.append(k)
         ops = []
         nh = 0
+        live = []
         for _ in range(rng.range(1, maxlen)):
             if heavy_reserve:
                 kind = rng.weighted([('prepare_add', 8), ('write_tmp', 5), ('commit', 6), ('abandon', 3),
-                                     ('insert_bytes', 4), ('get', 2), ('remove', 1), ('reopen', 1), ('insert_with', 2)])
+                                     ('insert_bytes', 4), ('get', 3), ('remove', 1), ('reopen', 1), ('insert_with', 2)])
             else:
                 kind = rng.weighted([('insert_bytes', 8), ('insert_with', 3), ('insert_file', 2), ('prepare_add', 4),
                                      ('write_tmp', 3), ('commit', 4), ('abandon', 1), ('get', 6), ('remove', 2),
                                      ('contains', 1), ('ext_delete', 1), ('reopen', 2)])
-            k = rng.choice(KEYS)
-            sz = rng.choice(SIZES)
+            k = rng.choice(present) if present and rng.chance(2, 3) else rng.choice(keys)
+            sz = rng.choice(sizes)
             if kind in ('insert_bytes', 'insert_file', 'prepare_add'):
+                if kind == 'prepare_add' and rng.chance(1, 3):
+                    sz = rng.choice([0, 1, 5])          # under-reservation, as the preprocessor cache does
                 ops.append([kind.encode(), k, sz])
                 if kind == 'prepare_add':
+                    live.append(nh)
                     nh += 1
+                else:
+                    present.append(k)
             elif kind == 'insert_with':
                 ops.append([b'insert_with', k, sz, 1 if rng.chance(1, 6) else 0])
+                present.append(k)
             elif kind == 'write_tmp':
-                ops.append([b'write_tmp', rng.below(max(nh, 1) + 1), sz])
+                h = rng.choice(live) if live and rng.chance(5, 6) else rng.below(nh + 1)
+                ops.append([b'write_tmp', h, sz])
             elif kind in ('commit', 'abandon'):
-                ops.append([kind.encode(), rng.below(max(nh, 1) + 1)])
+                h = rng.choice(live) if live and rng.chance(5, 6) else rng.below(nh + 1)
+                if h in live:
+                    live.remove(h)
+                ops.append([kind.encode(), h])
             elif kind == 'reopen':
                 ops.append([b'reopen', cap if rng.chance(3, 4) else rng.choice(CAPS)])
+                live = []
             else:
                 ops.append([kind.encode(), k])
-        out.append([cap, init, ops])
+        out.append([cap, init, ops, 1 if rng.chance(1, 2) else 0])
+    return out
+
+
+def gen_scenarios(depth):
+    """A full two-entry cache, then EVERY sequence (to the given depth) of two-phase / lookup operations on it:
+    overwrites of the least and most recently used key with under- and over-reservation."""
+    prefixes = [[[b'insert_bytes', b'a', 10], [b'insert_bytes', b'b', 10]],
+                [[b'insert_bytes', b'a', 12], [b'insert_bytes', b'b', 13]]]
+    alpha = [[b'prepare_add', b'a', 0], [b'prepare_add', b'a', 12], [b'prepare_add', b'b', 5],
+             [b'write_tmp', 0, 13], [b'write_tmp', 0, 5], [b'write_tmp', 1, 20], [b'commit', 0], [b'commit', 1],
+             [b'abandon', 0], [b'get', b'a'], [b'insert_bytes', b'd/c', 5], [b'reopen', 20]]
+    out = []
+    for cap in (20, 25):
+        for pre in prefixes:
+            for d in range(1, depth + 1):
+                for seq in itertools.product(alpha, repeat=d):
+                    out.append([cap, [], [list(o) for o in pre] + [list(o) for o in seq], (len(out) & 1)])
     return out
 
 
@@ -78,13 +114,13 @@ def gen_exhaustive(depth):
     out = []
     for d in range(1, depth + 1):
         for seq in itertools.product(alpha, repeat=d):
-            out.append([25, [], [list(o) for o in seq]])
+            out.append([25, [], [list(o) for o in seq], (len(out) & 1)])
     return out
 
 
 def monitor(case, out):
     """The property's own predicates, evaluated on the REAL implementation's observations."""
-    cap, init, ops = case
+    cap, init, ops = case[:3]
     vs = []
     if not isinstance(out, list) or len(out) != len(ops) + 1:
         return ['malformed implementation output']
@@ -160,7 +196,7 @@ def monitor(case, out):
 
 
 def nontrivial(case, out):
-    cap, init, ops = case
+    cap, init, ops = case[:3]
     # non-trivial: at least one eviction or reservation happened
     try:
         prevn = None
@@ -178,7 +214,7 @@ def nontrivial(case, out):
 
 
 def stats(case, out):
-    ks = ['cap=%d' % case[0], 'len=%d' % min(len(case[2]), 30)]
+    ks = ['cap=%d' % case[0], 'len=%d' % min(len(case[2]), 30), 'mtimes=%s' % ('fresh' if case[3:] == [1] else 'old')]
     for op in case[2]:
         ks.append('op=' + op[0].decode())
     try:
@@ -190,24 +226,26 @@ def stats(case, out):
 
 
 def shrink(case):
-    cap, init, ops = case
+    cap, init, ops = case[:3]
+    fresh = case[3:]
     for i in range(len(ops)):
-        yield [cap, init, ops[:i] + ops[i + 1:]]
+        yield [cap, init, ops[:i] + ops[i + 1:]] + fresh
     if init:
         for i in range(len(init)):
-            yield [cap, init[:i] + init[i + 1:], ops]
+            yield [cap, init[:i] + init[i + 1:], ops] + fresh
 
 
 def neighbours(case):
-    cap, init, ops = case
+    cap, init, ops = case[:3]
+    fresh = case[3:]
     for i in range(1, len(ops)):
-        yield [cap, init, ops[i:] + ops[:i]]
+        yield [cap, init, ops[i:] + ops[:i]] + fresh
     for i, op in enumerate(ops):
         if op[0] in (b'insert_bytes', b'insert_file', b'prepare_add', b'insert_with', b'write_tmp'):
             for s in SIZES:
                 o2 = list(op)
                 o2[2] = s
-                yield [cap, init, ops[:i] + [o2] + ops[i + 1:]]
+                yield [cap, init, ops[:i] + [o2] + ops[i + 1:]] + fresh
 
 
 def translate(rep):
@@ -219,11 +257,14 @@ def translate(rep):
 
 def legs(tier):
     def gen(rng, tier):
+        two = dict(keys=[b'a', b'b'], sizes=[0, 5, 10, 12, 13, 15])
         if tier == 'thorough':
-            return gen_exhaustive(5) + gen_random(rng, 40000, 30) + gen_random(rng, 20000, 30, True)
-        return gen_exhaustive(3) + gen_random(rng, 2200, 30) + gen_random(rng, 800, 30, True)
+            return (gen_exhaustive(5) + gen_scenarios(4) + gen_random(rng, 40000, 30) + gen_random(rng, 20000, 30, True)
+                    + gen_random(rng, 20000, 12, True, **two))
+        return (gen_exhaustive(3) + gen_scenarios(3) + gen_random(rng, 2200, 30) + gen_random(rng, 800, 30, True)
+                + gen_random(rng, 1500, 12, True, **two))
     return [Leg('lru', gen, monitor=monitor, nontrivial=nontrivial, shrink=shrink, neighbours=neighbours,
                 stats=stats,
-                rule='exhaustive op sequences over a 10-op alphabet (depth 3 quick / 5 thorough) + PRNG sequences of '
+                rule='exhaustive op sequences over a 10-op alphabet (depth 3 quick / 5 thorough) + exhaustive two-phase/overwrite scenarios on a full two-entry cache (12-op alphabet, depth 3/4) + state-aware PRNG sequences of '
                      'length<=30 over 4 keys x 9 sizes x 4 capacities incl. a reservation-heavy stream and pre-populated '
                      'directories; non-trivial = at least one eviction or live reservation occurred; distinct by full case text')]
